@@ -4,16 +4,11 @@
   `defect()`.  Model `Gama/Model/Ls/Gso.lean`; same scalars / hypothesis as Props/C01/Gso.lean;
   proofs `Gama/Lemmas/Ls/GsoCof.lean` on top of the invariant library.
 
-  Proved: a flagged unknown is a linear combination of the unknowns BEFORE it (so it is truly
-  dependent); the number of flags is the reported defect and equals n − rank A.
-  NOT YET PROVED (`C20_gso_removal_full_rank`): deleting the flagged columns leaves a matrix of
-  full column rank —
-      ∀ γ, (∀ j, a.lindep (j+1) = .ok true → γ j = 0) → p.A *ᵥ γ = 0 → γ = 0.
-  It follows from `C20_gso_count` (rank A = number of unflagged columns) and
-  `C20_gso_lindep_true` (every flagged column is in the span of the unflagged ones before it) by
-  a dimension argument that is not written down.
+  Proved: an unknown is flagged IF AND ONLY IF its column is a linear combination of the columns
+  BEFORE it; the number of flags is the reported defect and equals n − rank A; deleting the
+  flagged columns leaves a matrix of full column rank.
 -/
-import Gama.Lemmas.Ls.GsoCof
+import Gama.Lemmas.Ls.GsoMore
 import Gama.Lemmas.Ls.GsoReal
 namespace Gama.Props.C20
 open Gama Gama.Ls Gama.LS Gama.Ls.Gso Matrix
@@ -29,6 +24,26 @@ theorem C20_gso_lindep_true (p : Problem K) (hU : Unambiguous p) (a : Answer K)
       ∀ r, p.A r ⟨i - 1, by omega⟩ = ∑ j, p.A r j * γ j :=
   gso_lindep_true p hU h i hi
 
+/-- `lindep(i)` ⇔ column i of A lies in the span of the columns 1..i−1 -/
+theorem C20_gso_lindep_iff (p : Problem K) (hU : Unambiguous p) (a : Answer K)
+    (h : gsoSolve p = .ok a) (i : Nat) (hi : 1 ≤ i ∧ i ≤ p.n) :
+    a.lindep i = .ok true ↔
+      ∃ γ : Fin p.n → K, (∀ j : Fin p.n, i - 1 ≤ j → γ j = 0) ∧
+        ∀ r, p.A r ⟨i - 1, by omega⟩ = ∑ j, p.A r j * γ j := by
+  constructor
+  · intro hl
+    obtain ⟨_, γ, h1, h2⟩ := gso_lindep_true p hU h i hl
+    exact ⟨γ, h1, h2⟩
+  · rintro ⟨γ, h1, h2⟩
+    exact gso_lindep_conv p hU h i hi γ h1 h2
+
+/-- deleting the flagged columns leaves a matrix of full column rank: a combination of the
+    unflagged columns that vanishes is trivial -/
+theorem C20_gso_removal_full_rank (p : Problem K) (hU : Unambiguous p) (a : Answer K)
+    (h : gsoSolve p = .ok a) (γ : Fin p.n → K)
+    (hγ : ∀ j : Fin p.n, a.lindep (j + 1) = .ok true → γ j = 0) (hA : p.A *ᵥ γ = 0) : γ = 0 :=
+  gso_removal_full_rank p hU h γ hγ hA
+
 /-- #{i | lindep i} = defect = n − rank A -/
 theorem C20_gso_count (p : Problem K) (hU : Unambiguous p) (a : Answer K) (h : gsoSolve p = .ok a) :
     (Finset.univ.filter fun j : Fin p.n => a.lindep (j + 1) = .ok true).card = a.defect ∧
@@ -37,7 +52,7 @@ theorem C20_gso_count (p : Problem K) (hU : Unambiguous p) (a : Answer K) (h : g
 
 /-- non-vacuity: `Ex.pR` (A = [1 1; 0 0]) — unknown 2 is flagged, defect 1 -/
 example : Unambiguous Ex.pR ∧ ∃ a, gsoSolve Ex.pR = .ok a ∧ a.defect = 1 ∧ a.lindep 2 = .ok true := by
-  obtain ⟨a, _, h2, _, _, h5, h6⟩ := Ex.pR_answers
+  obtain ⟨a, h2, _, _, h5, h6⟩ := Ex.pR_answers
   exact ⟨Ex.pR_unambiguous, a, h2, h5, h6⟩
 
 end Gama.Props.C20
